@@ -52,7 +52,7 @@ fn lines_of(s: &str) -> Value {
 }
 
 /// decode one buffer and project the result
-fn decode_event(bytes: &[u8], want_text: bool, want_ops: bool) -> Value {
+fn decode_event(bytes: &[u8], want_text: bool, want_ops: bool, want_serde: bool) -> Value {
     let before = ALLOCATED.load(Ordering::Relaxed);
     let r = catch_unwind(AssertUnwindSafe(|| Frame::from_bytes(bytes)));
     let alloc = ALLOCATED.load(Ordering::Relaxed) - before;
@@ -81,6 +81,25 @@ fn decode_event(bytes: &[u8], want_text: bool, want_ops: bool) -> Value {
                     ev.insert("out".into(), json!({"ok": 2}));
                 }
             }
+            #[cfg(feature = "std")]
+            if want_serde {
+                // serialize / deserialize round trip of the decoded frame (C20)
+                let r = catch_unwind(AssertUnwindSafe(|| {
+                    let s = serde_json::to_string(&frame).map_err(|e| e.to_string())?;
+                    let f2: Frame = serde_json::from_str(&s).map_err(|e| e.to_string())?;
+                    Ok::<_, String>(project::frame(&f2))
+                }));
+                match r {
+                    Ok(Ok(m)) => {
+                        ev.insert("serde".into(), Value::Object(m));
+                    }
+                    _ => {
+                        ev.insert("serde".into(), json!({"ok": 3}));
+                    }
+                }
+            }
+            #[cfg(not(feature = "std"))]
+            let _ = want_serde;
             if want_ops || want_text {
                 // every operation offered on a decoded frame: Display, Debug, velocity computation
                 let ops = catch_unwind(AssertUnwindSafe(|| {
@@ -133,6 +152,7 @@ pub fn project_calc(v: &adsb_deku::adsb::AirborneVelocity) -> Value {
 fn cmd_decode(args: &[String]) {
     let want_text = args.iter().any(|a| a == "--text");
     let want_ops = args.iter().any(|a| a == "--ops");
+    let want_serde = args.iter().any(|a| a == "--serde");
     let skip: u64 = args
         .iter()
         .position(|a| a == "--skip")
@@ -162,7 +182,7 @@ fn cmd_decode(args: &[String]) {
         let bytes = bytes_of(&v["bytes"]);
         CUR_START.store(now_ms(t0), Ordering::SeqCst);
         CUR_INDEX.store(i as u64, Ordering::SeqCst);
-        let mut ev = decode_event(&bytes, want_text, want_ops);
+        let mut ev = decode_event(&bytes, want_text, want_ops, want_serde);
         CUR_INDEX.store(u64::MAX, Ordering::SeqCst);
         if let Some(tag) = v.get("tag") {
             ev.as_object_mut().unwrap().insert("tag".into(), tag.clone());
